@@ -305,27 +305,31 @@ class Run(object):
                     unc = [f for (f, o) in run.last_struct.get(t, ()) if not o.is_computed()]
                     run.emit("SegBegin", t=t, k=k, v=run.enc(recv), u=ru, a=run.active_id(), xs=unc)
                     for op in seg["ops"]:
-                        o = op["o"]
-                        if o == "enter":
-                            ctx = run.make_ctx(op["a"], t)
-                            ctx.__enter__()
-                            open_ctx.append(ctx)
-                        elif o == "exit":
-                            ctx = open_ctx.pop()
-                            ctx.__exit__(None, None, None)
-                        elif o == "read":
-                            a = op["a"]
-                            val = run.svars[a].get() if a < 100 else getattr(run.attrobj, "a%d" % (a - 100))
-                            run.emit("Read", t=t, a=a, v=run.enc(val))
-                        elif o == "sync":
-                            val = run.sync_call(t, op["a"])
-                            recvs.append(val)
-                        elif o == "spawn":
-                            run.get_task(op["a"], t)
-                        elif o == "dirty":
-                            pass
-                        else:
-                            raise ValueError(o)
+                      o = op["o"]
+                      try:
+                            if o == "enter":
+                                ctx = run.make_ctx(op["a"], t)
+                                ctx.__enter__()
+                                open_ctx.append(ctx)
+                            elif o == "exit":
+                                ctx = open_ctx.pop()
+                                ctx.__exit__(None, None, None)
+                            elif o == "read":
+                                a = op["a"]
+                                val = run.svars[a].get() if a < 100 else getattr(run.attrobj, "a%d" % (a - 100))
+                                run.emit("Read", t=t, a=a, v=run.enc(val))
+                            elif o == "sync":
+                                val = run.sync_call(t, op["a"])
+                                recvs.append(val)
+                            elif o == "spawn":
+                                run.get_task(op["a"], t)
+                            elif o == "dirty":
+                                pass
+                            else:
+                                raise ValueError(o)
+                      except BaseException:
+                        run.emit("SegEnd", t=t, k=k, b=6, s=V("N"), a=run.active_id())
+                        raise
                     term = seg["term"]
                     tk = term["k"]
                     if tk == "yield":
